@@ -405,7 +405,7 @@ func ruleFRAMES1(c *Ctx) {
 		// the arm) `if framesIndex >= MaxFrames { err = ErrStackOverflow; return }`
 		good := false
 		for _, g := range precedingGuards(stack) {
-			b, ok := ast.Unparen(g.Cond).(*ast.BinaryExpr)
+			b, ok := gtExpr(g.Cond)
 			if !ok || (b.Op != token.GEQ && b.Op != token.GTR) {
 				continue
 			}
@@ -851,7 +851,7 @@ func ruleLIMIT2(c *Ctx) {
 				}
 				good := false
 				for _, g := range precedingGuards(stack) {
-					b, ok := ast.Unparen(g.Cond).(*ast.BinaryExpr)
+					b, ok := gtExpr(g.Cond)
 					if !ok || (b.Op != token.GTR && b.Op != token.GEQ) {
 						continue
 					}
